@@ -220,6 +220,36 @@ func c15CBOR(c *mon.Ctx, g *model.Gen, sn string, v any, sig string, embedded bo
 			return
 		}
 		c.Count("cbor-duplicate-key-rejected")
+		// the same in the other map forms the populate function reads itself:
+		// indefinite-length map, tagged map (default decoding mode, which
+		// allows indefinite lengths); control: without the duplicate each
+		// form populates
+		clean := refcbor.MapOf(ast.Items...)
+		for fi, form := range []func(n *refcbor.Node) *refcbor.Node{
+			func(n *refcbor.Node) *refcbor.Node { return n.AsIndef() },
+			func(n *refcbor.Node) *refcbor.Node { return refcbor.Tagged(uint64(1+g.R.Intn(70000)), n) },
+			func(n *refcbor.Node) *refcbor.Node { return refcbor.Tagged(55799, n.AsIndef()) },
+			func(n *refcbor.Node) *refcbor.Node { return n.WithArgW(1 << uint(g.R.Intn(3))) }, // 8-byte lengths are refused by design
+		} {
+			name := []string{"indefinite", "tagged", "tagged-indefinite", "non-minimal-length"}[fi]
+			in := refcbor.Encode(form(dup))
+			if err := encoding.PopulateStructFromCBOR(extprof.DMDefault, in, shapes.New(sn)); err == nil {
+				bad("duplicate-key-accepted:"+name, "CBOR input ("+name+" map) with a duplicate key was accepted", map[string]any{"hex": mon.Hex(in)})
+				return
+			}
+			c.Count("cbor-duplicate-key-rejected:" + name)
+			in = refcbor.Encode(form(clean))
+			dst := shapes.New(sn)
+			if err := encoding.PopulateStructFromCBOR(extprof.DMDefault, in, dst); err != nil {
+				bad("map-form-rejected:"+name, "the struct's own serialisation re-encoded as a "+name+" map was rejected: "+err.Error(), map[string]any{"hex": mon.Hex(in)})
+				return
+			}
+			if shapes.Render(dst) != shapes.Render(v) {
+				bad("map-form-populates-differently:"+name, "populating from the "+name+" form gives another value", map[string]any{"hex": mon.Hex(in), "got": shapes.Render(dst)})
+				return
+			}
+			c.Count("cbor-map-form-populated:" + name)
+		}
 	}
 }
 
@@ -435,7 +465,7 @@ func c15Synth(c *mon.Ctx, g *model.Gen, n int, fill string) {
 }
 
 func runC15(c *mon.Ctx) {
-	c.Rule("shapes following the claims convention (pointer-typed tagged fields, '-' for bookkeeping fields): flat; one and two levels of embedded struct; embedded interface holding a struct pointer or nothing; all-optional flat and embedded; flat reflect.StructOf shapes with N synthetic keys, N (and number of set fields) in {0,1,22,23,24,25,254,255,256,257} (thorough: also 65534..65537, 70000); the two extension profiles built on P2Claims / P1Claims. For random field values x every subset of optional fields (mandatory fields set or nil): the output of SerializeStructToCBOR / JSON, read by the independent CBOR reader / a generic JSON parse, must be exactly one map = union of outer and embedded fields honouring omitempty and '-', right value per key, no duplicates, nothing trailing; serialising twice gives identical bytes; populating a fresh struct reproduces the value (incl. the all-empty one); for shapes without embedding the output decodes to the same map as the plain fxamacker / encoding/json marshaller's; removing a non-optional key makes populate fail (into a zero destination and into one that already holds values), removing an optional one does not; a duplicated CBOR key makes populate fail. Extension profiles: MarshalCBOR/JSON of valid claims = base profile wire map + extension member, and round-trips. distinct_nontrivial = distinct (shape, set-field subset) signatures")
+	c.Rule("shapes following the claims convention (pointer-typed tagged fields, '-' for bookkeeping fields): flat; one and two levels of embedded struct; embedded interface holding a struct pointer or nothing; all-optional flat and embedded; flat reflect.StructOf shapes with N synthetic keys, N (and number of set fields) in {0,1,22,23,24,25,254,255,256,257} (thorough: also 65534..65537, 70000); the two extension profiles built on P2Claims / P1Claims. For random field values x every subset of optional fields (mandatory fields set or nil): the output of SerializeStructToCBOR / JSON, read by the independent CBOR reader / a generic JSON parse, must be exactly one map = union of outer and embedded fields honouring omitempty and '-', right value per key, no duplicates, nothing trailing; serialising twice gives identical bytes; populating a fresh struct reproduces the value (incl. the all-empty one); for shapes without embedding the output decodes to the same map as the plain fxamacker / encoding/json marshaller's; removing a non-optional key makes populate fail (into a zero destination and into one that already holds values), removing an optional one does not; a duplicated CBOR key makes populate fail, also when the map is re-encoded as an indefinite-length / tagged / tagged indefinite-length / non-minimal-length map under the CBOR library's default decoding mode, while each of these forms without the duplicate populates to the same value. Extension profiles: MarshalCBOR/JSON of valid claims = base profile wire map + extension member, and round-trips. distinct_nontrivial = distinct (shape, set-field subset) signatures")
 	if err := extprof.Register(extprof.ExtP2Name, extprof.ExtP1Name); err != nil {
 		c.Violation("harness/register", err.Error(), nil)
 		return
